@@ -628,6 +628,11 @@ namespace Dune
     {
       DUNE_ASSERT_BOUNDS(M.rows() == M.cols());
       DUNE_ASSERT_BOUNDS(M.rows() == rows());
+      if (static_cast<const void*>(&M) == static_cast<const void*>(this)) {
+        // M is this matrix itself: multiply with a copy, the loop below overwrites the entries it reads from M
+        const AutonomousValue<MAT> Mcopy(asImp());
+        return leftmultiply(Mcopy);
+      }
       AutonomousValue<MAT> C(asImp());
 
       for (size_type i=0; i<rows(); i++)
@@ -646,6 +651,11 @@ namespace Dune
     {
       DUNE_ASSERT_BOUNDS(M.rows() == M.cols());
       DUNE_ASSERT_BOUNDS(M.cols() == cols());
+      if (static_cast<const void*>(&M) == static_cast<const void*>(this)) {
+        // M is this matrix itself: multiply with a copy, the loop below overwrites the entries it reads from M
+        const AutonomousValue<MAT> Mcopy(asImp());
+        return rightmultiply(Mcopy);
+      }
       AutonomousValue<MAT> C(asImp());
 
       for (size_type i=0; i<rows(); i++)
